@@ -24,6 +24,10 @@ def make_planet(layers, n_per_layer=40, r0_frac=1e-3, n_first=None):
     for i, L in enumerate(layers):
         n = (n_first or n_per_layer) if i == 0 else n_per_layer
         lo = r0_frac * R_tot if i == 0 else np.nextafter(R_prev, np.inf)
+        # the solver assigns slices to layers by `radius > upper_radius` AFTER dividing both by the planet radius when it
+        # non-dimensionalises: make sure the first slice of the upper layer stays above the interface there too
+        while i > 0 and not (lo / R_tot > R_prev / R_tot):
+            lo = np.nextafter(lo, np.inf)
         r = np.linspace(lo, L["R"], n)
         rs.append(r)
         rho.append(np.full(n, float(L["rho"])))
